@@ -126,6 +126,52 @@ func VerifC01KernelTwice() { c01Kernel(1, 2, 2, 2, 2, false) }
 func VerifC01Kernel3Pass() { c01Kernel(1, 1, 3, 1, 3, false) }
 func VerifC01KernelCached() { c01Kernel(1, 2, 2, 1, 2, true) }
 
+// c01Late: a report pass that starts after the increments have stopped runs concurrently
+// with a straggling pass; when both are done everything must have been delivered - no
+// further pass is needed.
+func c01Late(b, preempt int) {
+	cnt := newCounter(nil)
+	var want int64
+	vals := make([]int64, b)
+	for i := range vals {
+		vals[i] = verifrt.Int64("inc")
+		want += vals[i]
+	}
+	recs := []*vReporter{{}, {}}
+	var wgInc, wg sync.WaitGroup
+	verifrt.Explore(preempt)
+	wgInc.Add(1)
+	wg.Add(3)
+	go func() {
+		defer wg.Done()
+		defer wgInc.Done()
+		for _, v := range vals {
+			cnt.Inc(v)
+		}
+	}()
+	go func() { // straggler: may start at any time
+		defer wg.Done()
+		cnt.report("c", nil, recs[0])
+	}()
+	go func() { // starts after the increments have stopped
+		defer wg.Done()
+		wgInc.Wait()
+		cnt.report("c", nil, recs[1])
+	}()
+	wg.Wait()
+	verifrt.StopExplore()
+	var got int64
+	for _, rr := range recs {
+		s, _, _, _ := sumCounter(rr)
+		got += s
+	}
+	verifrt.Assert("c01.pass-after-activity-stopped-delivers-the-rest", got == want)
+	verifrt.Reach("c01.late.end")
+}
+
+func VerifC01LatePass()  { c01Late(2, 2) }
+func VerifC01LatePass3() { c01Late(2, 3) }
+
 // VerifC01Step: one report step from an arbitrary counter state (inductive step).
 func VerifC01Step() {
 	rec := &vReporter{}
